@@ -199,7 +199,7 @@ def eval_cross(i, scn):
 
 
 def main():
-    a, rep, replay = parse(PROP)
+    a, rep, replay = parse(PROP, aged=True)
     rep.assumptions = ["equalities are up to the sign (unit phase for complex data) of each mode and only for modes whose singular value is not tied",
                        "SparsePCA without penalty is an iterative solver: compared to 1e-5 / 1e-4"]
     if replay is not None and replay["scenario"].get("kind") == "scenario":
